@@ -197,6 +197,13 @@ def big_plan(rng, stream, n):
 
 
 def run(ctx):
+    try:
+        _run(ctx)
+    finally:
+        finish_notes(ctx)
+
+
+def _run(ctx):
     if not ctx.thorough:
         for i in range(22):
             run_stream(ctx, i, short=False, big=False, plan=quick_plan)
@@ -237,6 +244,18 @@ def run_exhaustive(ctx, i, k, maxlen, shard=False):
 
 def exhaustive(ctx):
     return False
+
+
+def finish_notes(ctx):
+    """Reach: which functions / lines of the real Buffer ran under the step budget."""
+    sb = bufmon.stepbudget()
+    funcs = sorted({fn for fn, ln in sb.lines})
+    ctx.notes["buffer_functions_reached"] = funcs
+    ctx.notes["buffer_lines_reached"] = len(sb.lines)
+    ctx.notes["max_line_events_in_one_process_call"] = sb.max_steps
+    for need in ("process", "_cleanup_buffer", "_find_message_in_buffer"):   # no junk here: _cleanup_beginning is C11's
+        if need not in funcs:
+            ctx.mark_inconclusive(f"anchored mechanism Buffer.{need} was never executed under the monitor")
 
 
 def replay(ctx, case):
